@@ -61,7 +61,8 @@ ChunksFit(chunks, count) ==
           IN  last.ct = "sv" => \A j \in 1..Len(last.syms) : j > room => last.syms[j] = 0
 
 DeltaSize(d)   == IF d.t = 1 THEN 1 ELSE 2
-DeltaInRange(d) == IF d.t = 1 THEN d.ticks \in 0..255 ELSE d.ticks \in -32768..32767
+\* a delta in memory is 250 * (ticks + big * 2^32) + rem microseconds, ticks in -2^31..2^31-1 (big # 0: beyond 32 bits of ticks)
+DeltaInRange(d) == d.big = 0 /\ (IF d.t = 1 THEN d.ticks \in 0..255 ELSE d.ticks \in -32768..32767)
 EncDelta(d)    == IF d.t = 1 THEN << d.ticks >> ELSE BE16((d.ticks + 65536) % 65536)
 ContentTWCC(v) == 20 + 2 * Len(v.chunks) + SeqSum([i \in 1..Len(v.deltas) |-> DeltaSize(v.deltas[i])])
 SizeTWCC(v)    == ContentTWCC(v) + PadLen(ContentTWCC(v))
@@ -95,47 +96,55 @@ EncTWCC(v) ==
 
 \* ---- decoding: chunk pass then delta pass (the step-machine form with its
 \* invariants is TwccAlg.tla; this is the same computation as operators) ----
+\* Delta placeholders are kept as runs [t |-> size class, n |-> how many] so that both passes are
+\* linear in the packet size even for status counts near 2^16.
+RunsOf(st) ==      \* runs of equal delta type in a (short) status list
+  LET ds == DeltaTypesOf(st)
+      RECURSIVE go(_, _)
+      go(i, acc) == IF i > Len(ds) THEN acc
+                    ELSE IF acc # << >> /\ acc[Len(acc)].t = ds[i] THEN go(i + 1, [acc EXCEPT ![Len(acc)].n = @ + 1])
+                    ELSE go(i + 1, Append(acc, [t |-> ds[i], n |-> 1]))
+  IN  go(1, << >>)
+ChunkRuns(c, room) ==
+  IF c.ct = "rl" THEN (IF HasDelta(c.sym) /\ Min(c.run, room) > 0 THEN << [t |-> c.sym, n |-> Min(c.run, room)] >> ELSE << >>)
+  ELSE RunsOf(c.syms)
 RECURSIVE ChunkPass(_, _, _, _, _, _)
 \* pos: octet offset of the next chunk; room: statuses still missing
-ChunkPass(b, pos, room, chunks, dts, ok) ==
-  IF room <= 0 THEN [ok |-> ok, chunks |-> chunks, dts |-> dts, pos |-> pos]
+ChunkPass(b, pos, room, chunks, runs, ok) ==
+  IF room <= 0 THEN [ok |-> ok, chunks |-> chunks, runs |-> runs, pos |-> pos]
   ELSE IF pos + 2 > Len(b) THEN [ok |-> FALSE]
   ELSE LET c == DecChunkWord(U16At(b, pos)) IN
        IF c.ct = "rl" /\ c.run = 0 THEN [ok |-> FALSE]
-       ELSE LET st == ChunkStatuses(c, room)
-                clean == c.ct = "sv" => \A j \in 1..Len(c.syms) : j > room => c.syms[j] = 0
-            IN  ChunkPass(b, pos + 2, room - ChunkSpan(c), Append(chunks, c),
-                          dts \o DeltaTypesOf(st), ok /\ clean)
+       ELSE LET clean == c.ct = "sv" => \A j \in 1..Len(c.syms) : j > room => c.syms[j] = 0
+            IN  ChunkPass(b, pos + 2, room - ChunkSpan(c), Append(chunks, c), runs \o ChunkRuns(c, room), ok /\ clean)
 
 \* lenient form used to judge whatever the library accepts: zero-length runs
 \* are walked over; fits = every chunk lies inside b; clean = no vector symbol
 \* beyond the status count is set
 RECURSIVE ChunkPassL(_, _, _, _, _, _)
-ChunkPassL(b, pos, room, chunks, dts, clean) ==
-  IF room <= 0 THEN [fits |-> TRUE, clean |-> clean, chunks |-> chunks, dts |-> dts, pos |-> pos]
-  ELSE IF pos + 2 > Len(b) THEN [fits |-> FALSE, clean |-> clean, chunks |-> chunks, dts |-> dts, pos |-> pos]
+ChunkPassL(b, pos, room, chunks, runs, clean) ==
+  IF room <= 0 THEN [fits |-> TRUE, clean |-> clean, chunks |-> chunks, runs |-> runs, pos |-> pos]
+  ELSE IF pos + 2 > Len(b) THEN [fits |-> FALSE, clean |-> clean, chunks |-> chunks, runs |-> runs, pos |-> pos]
   ELSE LET c == DecChunkWord(U16At(b, pos))
-           st == ChunkStatuses(c, room)
            cl == c.ct = "sv" => \A j \in 1..Len(c.syms) : j > room => c.syms[j] = 0
-       IN  ChunkPassL(b, pos + 2, room - ChunkSpan(c), Append(chunks, c), dts \o DeltaTypesOf(st), clean /\ cl)
+       IN  ChunkPassL(b, pos + 2, room - ChunkSpan(c), Append(chunks, c), runs \o ChunkRuns(c, room), clean /\ cl)
 
+DeltaAt(b, pos, t) ==
+  IF t = 1 THEN [t |-> 1, ticks |-> At(b, pos), rem |-> 0, big |-> 0]
+  ELSE LET w == U16At(b, pos) IN [t |-> 2, ticks |-> IF w >= 32768 THEN w - 65536 ELSE w, rem |-> 0, big |-> 0]
 RECURSIVE DeltaPass(_, _, _, _)
-DeltaPass(b, pos, dts, acc) ==
-  IF dts = << >> THEN [ok |-> TRUE, deltas |-> acc, pos |-> pos]
-  ELSE IF Head(dts) = 1 THEN
-         (IF pos + 1 > Len(b) THEN [ok |-> FALSE]
-          ELSE DeltaPass(b, pos + 1, Tail(dts), Append(acc, [t |-> 1, ticks |-> At(b, pos), rem |-> 0])))
-  ELSE (IF pos + 2 > Len(b) THEN [ok |-> FALSE]
-        ELSE LET w == U16At(b, pos) IN
-             DeltaPass(b, pos + 2, Tail(dts),
-                       Append(acc, [t |-> 2, ticks |-> IF w >= 32768 THEN w - 65536 ELSE w, rem |-> 0])))
+DeltaPass(b, pos, runs, acc) ==
+  IF runs = << >> THEN [ok |-> TRUE, deltas |-> acc, pos |-> pos]
+  ELSE LET r == Head(runs)  w == IF r.t = 1 THEN 1 ELSE 2 IN
+       IF pos + w * r.n > Len(b) THEN [ok |-> FALSE]
+       ELSE DeltaPass(b, pos + w * r.n, Tail(runs), acc \o [i \in 1..r.n |-> DeltaAt(b, pos + w * (i - 1), r.t)])
 
 DecTWCC(b) ==
   IF ~(Framed(b) /\ HPT(b) = 205 /\ HC(b) = 15) THEN NA
   ELSE IF Len(b) < 20 THEN Rej
   ELSE LET cp == ChunkPass(b, 20, U16At(b, 14), << >>, << >>, TRUE) IN
        IF ~cp.ok THEN NA
-       ELSE LET dp == DeltaPass(b, cp.pos, cp.dts, << >>) IN
+       ELSE LET dp == DeltaPass(b, cp.pos, cp.runs, << >>) IN
             IF ~dp.ok THEN NA
             ELSE LET r == Len(b) - dp.pos
                      padOK == IF HP(b) THEN r \in 1..3 /\ At(b, Len(b) - 1) = r /\ AllZero(Sl(b, dp.pos, r - 1))
@@ -154,7 +163,7 @@ DecRunLengthUnit(b) == IF Len(b) < 2 THEN Rej ELSE IF Len(b) > 2 THEN NA ELSE
 DecStatusVectorUnit(b) == IF Len(b) < 2 THEN Rej ELSE IF Len(b) > 2 THEN NA ELSE
   LET w == U16At(b, 0)  c == DecChunkWord(32768 + (w % 32768)) IN Ok(c)
 DecDeltaUnit(b) ==
-  IF Len(b) = 1 THEN Ok([t |-> 1, ticks |-> At(b, 0), rem |-> 0])
-  ELSE IF Len(b) = 2 THEN LET w == U16At(b, 0) IN Ok([t |-> 2, ticks |-> IF w >= 32768 THEN w - 65536 ELSE w, rem |-> 0])
+  IF Len(b) = 1 THEN Ok([t |-> 1, ticks |-> At(b, 0), rem |-> 0, big |-> 0])
+  ELSE IF Len(b) = 2 THEN LET w == U16At(b, 0) IN Ok([t |-> 2, ticks |-> IF w >= 32768 THEN w - 65536 ELSE w, rem |-> 0, big |-> 0])
   ELSE IF Len(b) = 0 THEN Rej ELSE NA
 =============================================================================
